@@ -152,3 +152,22 @@ def malformed_stream(rnd, tier, per_seed=10):
             s = ('0110' if '6' in stack else '0100') + s[4:]      # pass the IP version check
         cases.append((stack, s, 'random'))
     return cases
+
+
+def fresh_process_parse(rep, pid, samples):
+    """samples: [(stack, packet bytes)] of byte-aligned inputs already parsed here; the same parses in a fresh interpreter that imports
+    only the registry (another host, a restarted gateway) must give the same field lists or the same exception"""
+    import freshproc
+    from microschc.binary.buffer import Buffer as _B
+    tasks, expected = [], []
+    for stack, pkt in samples:
+        if stack == 'CoAP-semantic':
+            continue
+
+        def f():
+            pd = parser_for(stack).parse(_B(pkt, len(pkt) * 8))
+            return tuple((str(getattr(x.id, 'value', x.id)), x.position, bits_of(x.value)) for x in pd.fields) + (('payload', 0, bits_of(pd.payload)),)
+        o = with_timeout(f, 5)
+        tasks.append(dict(op='parse', stack=stack, packet=pkt.hex()))
+        expected.append((o[0], o[1]))
+    freshproc.compare(rep, pid + ':parse', tasks, expected, lambda t: '%s parser on packet %s...' % (t['stack'], t['packet'][:60]))
